@@ -1030,7 +1030,9 @@ func genC15(c *ctx) {
 		}
 	}
 	// 2b. deep nesting (far beyond what the random trees reach): N levels of one constructor, or of all four in rotation
-	strOf := func(t reflect.Type) reflect.Type { return wrap(reflect.StructField{Name: "V", Type: t, Tag: `json:"v"`}) }
+	strOf := func(t reflect.Type) reflect.Type {
+		return wrap(reflect.StructField{Name: "V", Type: t, Tag: `json:"v"`})
+	}
 	mapOf := func(t reflect.Type) reflect.Type { return reflect.MapOf(reflect.TypeOf(""), t) }
 	for _, depth := range []int{31, 32, 33, 34, 48, 70} {
 		for ci, cons := range []func(reflect.Type) reflect.Type{reflect.SliceOf, mapOf, reflect.PointerTo, strOf, nil} {
